@@ -81,6 +81,13 @@ fn main() {
         }
         "replay" => {
             let path = PathBuf::from(args.get(2).cloned().unwrap_or_default());
+            if let Ok(text) = std::fs::read_to_string(&path) {
+                if let Ok(v) = serde_json::from_str::<serde_json::Value>(&text) {
+                    if v.get("kind").and_then(|k| k.as_str()) == Some("seed") {
+                        std::process::exit(batch::replay_seed(&v, &path));
+                    }
+                }
+            }
             match replay_file(&path) {
                 Err(e) => {
                     eprintln!("HARNESS ERROR: {}", e);
